@@ -85,7 +85,7 @@ PROPS = {
   "traces_from": ["C01"],
  },
  "C02": {
-  "tests": ["TestC02"],
+  "tests": ["TestC02", "TestC02Races"],
   "rule": "random histories of acquires, completions with the three outcomes, scripted estimate changes, partition adds/removes and virtual-time steps through the default limiter over "
           "all four strategy kinds, ending with a full drain and re-acquisition of the full limit; after every op gauge = busy = outstanding listeners; non-trivial = a completed drain",
   "level_text": "C02_init/_acquire/_complete: LInv (gauge = strategy busy = outstanding listeners) is an invariant of the default limiter over any strategy, any outcome, any window "
@@ -163,5 +163,14 @@ PROPS = {
                 "the random-ordering pool inherits F8, queue pools F9a.",
   "level_note": "Trusted as C10.",
   "technique": "Coq invariants on settled model + differential replay",
+ },
+ "C08": {
+  "tests": ["TestC08"],
+  "rule": "twin instances of Vegas/Gradient/Gradient2 built and driven with an identically re-seeded math/rand source (identical jitter/countdown draws), same random prefix, then one final sample "
+          "differing only in RTT (pairs around the baseline and around Vegas' queue thresholds); pairs where a final sample is a probe or lowers the baseline are discarded; non-trivial = a compared pair",
+  "level_text": "C08_vegas_partial: the stored estimate is monotone in the queue estimate across all updating branches (branch ladder + clamp + smoothing, binary64, any state satisfying the C04 invariant). "
+                "Monotonicity of the queue estimate in the RTT, the dead-band corner and Gradient/Gradient2 are decided by bit-exact replay + the twin-run oracle (theorems in progress).",
+  "level_note": "Trusted as C04 plus: log10 oracle values satisfy log10(est) <= 6*int(log10(int est)) (checked by the harness on every supplied value). Known finding F18 replayed.",
+  "technique": "Coq/Flocq monotonicity theorem + differential replay of twin runs",
  },
 }
